@@ -84,6 +84,40 @@ func c01EnumBodies(depth int) [][]*Node {
 			}
 		}
 	}
+	if depth < 3 {
+		return out
+	}
+	// level 3: every level-2 program as a group under every loop head, alone and
+	// followed by 'b' (skipping what would unroll to more than ~12 copies)
+	level2 := out
+	for _, body := range level2 {
+		grp := &Node{K: KSeq, Kids: body}
+		inner := 1
+		for _, n := range body {
+			if n.K == KLoop {
+				inner *= n.Min + 1
+				if n.Body.K == KLoop {
+					inner *= n.Body.Min + 1
+				}
+			}
+		}
+		hasCap := false
+		for _, n := range body {
+			if n.K == KCap || (n.K == KOr && len(n.Kids) > 0 && n.Kids[0].K == KSeq) {
+				hasCap = true
+			}
+		}
+		for _, h := range heads {
+			if inner*(h.min+1) > 12 {
+				continue
+			}
+			if hasCap && (h.min > 0 || h.max == 0) {
+				continue // a capture under an unrolled loop is a name clash (section 2)
+			}
+			out = append(out, []*Node{{K: KLoop, Min: h.min, Max: h.max, Fewest: h.fewest, Body: grp}})
+			out = append(out, []*Node{{K: KLoop, Min: h.min, Max: h.max, Fewest: h.fewest, Body: grp}, {K: KLit, S: "b"}})
+		}
+	}
 	return out
 }
 
@@ -95,7 +129,9 @@ func c01EnumTexts() []string {
 	return append(texts, "a\nb", "ab\n", "\nab", "aab\nab")
 }
 
-func c01Enumerate(t *testing.T, part string, stride int) {
+func c01Enumerate(t *testing.T, part string, stride int) { c01EnumerateDepth(t, part, stride, 2) }
+
+func c01EnumerateDepth(t *testing.T, part string, stride int, depth int) {
 	seedNote(t)
 	StartWatchdog("C01", 60*time.Second)
 	nshards := envInt("VERIF_NSHARDS", 1)
@@ -108,7 +144,7 @@ func c01Enumerate(t *testing.T, part string, stride int) {
 	st := NewStats("C01", part, kind+fmt.Sprintf(" `find all P` with P from a small grammar (10 atoms incl. not / in / not in / anchors, 13 loop heads greedy and fewest, or-pairs; then loops over those, pairs with an atom on either side, capture + back-reference, capture under alternation) x all %d texts (every string of length 1..4 over {a,b} and four multi-line texts); oracle: reference matcher (spans and variables) and Go regexp on the regular subset; non-trivial = >= 1 match after the reference abandoned an alternative or iteration; distinct by (source,text)", len(texts)))
 	st.Exhaustive = stride == 1
 	defer st.Write()
-	bodies := c01EnumBodies(2)
+	bodies := c01EnumBodies(depth)
 	for i, body := range bodies {
 		if i%stride != 0 || (i/stride)%nshards != shardIdx {
 			continue
@@ -160,6 +196,11 @@ func c01Enumerate(t *testing.T, part string, stride int) {
 
 // TestC01Enum: the complete enumeration (thorough tier).
 func TestC01Enum(t *testing.T) { c01Enumerate(t, "enum", 1) }
+
+// TestC01Enum3: level 3 (every level-2 program under every loop head); thorough tier.
+func TestC01Enum3(t *testing.T) {
+	c01EnumerateDepth(t, "enum3", envInt("VERIF_C01_STRIDE3", 1), 3)
+}
 
 // TestC01EnumSample: every 8th program (quick tier).
 func TestC01EnumSample(t *testing.T) { c01Enumerate(t, "enumsample", envInt("VERIF_C01_STRIDE", 8)) }
